@@ -5,7 +5,8 @@ from props import common, mix, tim
 THM = "NextestModel.Thm.C09"
 GEN = ["tables"]
 GEN_GROUPS = ["interval"]
-TRUSTED = ["model: Model/Unit (the wait loops of run_test_inner / run_setup_script_inner, terminate_child, detect_fd_leaks, handle_delay_between_attempts, with PausableSleep / StopwatchStart as pausable counters over abstract milliseconds)",
+TRUSTED = ["in-process timer stream p_timer: hooks VerifSleep (PausableSleep on a paused tokio clock) and VerifStopwatch (StopwatchStart around real sleeps; trusted: std Instant is monotonic, each operation happens between the harness's two clock readings around it — Driver/Timer.handleSWatch)",
+           "model: Model/Unit (the wait loops of run_test_inner / run_setup_script_inner, terminate_child, detect_fd_leaks, handle_delay_between_attempts, with PausableSleep / StopwatchStart as pausable counters over abstract milliseconds)",
            "timer latency, delivery of kill(-pgid, sig) to every member of the process group and the finality of SIGKILL are the runtime's and the kernel's: observed end-to-end on the receivers' own timestamps (tolerances: 40 ms early for exec latency, 700 ms late)"]
 ASSUMPTIONS = ["the theorems quantify over event sequences without shutdown requests (C11 covers those)", "setup scripts share the transitions (run_setup_script_inner has the same loop); their slow-timeout is exercised by the sig family only"]
 
